@@ -202,7 +202,7 @@ def run(ctx):
     if f:
         ps, _ = util.run_fn(F, f, inline=lambda g, t: "read_shape_content" not in g["def"], summarise_pure=False)
         codes = set()
-        null_ok = False
+        null_paths = []
         for p in ps:
             ios = p.io()
             if not ios:
@@ -213,9 +213,12 @@ def run(ctx):
                     val = v
             if isinstance(val, int):
                 codes.add(val)
-                if val == 0:
+                if val == 0 and is_agg(p.ret, None, 'Ok'):
                     calls = [e for e in p.eff if e[0] == 'call']
-                    null_ok = len(ios) == 1 and not calls and is_agg(p.ret, None, 'Ok')
+                    null_paths.append(len(ios) == 1 and not calls)
+                elif val == 0 and not any(t[0] == 'discr' and t[1][0] == 'checked' and v == 0 for t, v in p.cons):
+                    null_paths.append(False)        # an error for a null shape that is not the (type-independent) size guard
+        null_ok = bool(null_paths) and all(null_paths)
         want = set(s["code"] for s in sp["shape_types"])
         ctx.ob("C03.dispatch", "14 codes dispatched", codes == want, "arms for codes %s" % sorted(codes), site=ctx.site_of(F, f["def"]),
                key="C03.dispatch|codes")
